@@ -124,6 +124,10 @@ import BGV
 #print axioms BGV.C08_dEdges_nodup
 #print axioms BGV.C08_postIncr
 #print axioms BGV.C08_enumeration_defined
+#print axioms BGV.C08_uEdges
+#print axioms BGV.C08_mem_uEdges
+#print axioms BGV.C08_uEdges_nodup
+#print axioms BGV.C08_uEdges_length
 
 -- C09
 #print axioms BGV.C09_reversed
